@@ -95,9 +95,8 @@ def c14(ctx):
     absorb_game(ctx, bad, {"Coord", "CoordBatch", "Label", "LabelBatch", "GToggle"})
     ctx.evaluations += ev
     ctx.nontrivial += hist
-    if not quick:
-        import cli
-        cli.pvp_check(ctx)
+    import cli
+    cli.pvp_check(ctx)
     ctx.rule = ("B2: games through the Game API from the start position and from catalogue seeds; at every ply all 4096 coordinate pairs (every few plies) or a near-miss sample, "
                 "near-miss notation strings derived from the labels the code prints (dropped/added x, wrong or missing disambiguation, wrong suffix, promotions without piece, labels of the previous position, junk), "
                 "then one legal input by coordinates or by notation. TLC: accepted iff CoordMatch / LabelMatch is non-empty, the accepted input plays exactly that move (queen for a coordinate promotion) "
